@@ -15,17 +15,18 @@ Import ListNotations.
 
 Inductive cls :=
 | CObject | CInt | CBool | CFloat | CComplex | CStr | CTuple | CNone | CType
-| CA | CB | CC | CFalsy | CAC | CE | CIE.
+| CA | CB | CC | CFalsy | CAC | CE | CIE | CEnumMeta.
 
 Definition all_cls : list cls :=
   [CObject; CInt; CBool; CFloat; CComplex; CStr; CTuple; CNone; CType;
-   CA; CB; CC; CFalsy; CAC; CE; CIE].
+   CA; CB; CC; CFalsy; CAC; CE; CIE; CEnumMeta].
 
 Definition cls_code (c : cls) : nat :=
   match c with
   | CObject => 0 | CInt => 1 | CBool => 2 | CFloat => 3 | CComplex => 4
   | CStr => 5 | CTuple => 6 | CNone => 7 | CType => 8
   | CA => 9 | CB => 10 | CC => 11 | CFalsy => 12 | CAC => 13 | CE => 14 | CIE => 15
+  | CEnumMeta => 16
   end.
 
 Definition cls_eqb (a b : cls) : bool := Nat.eqb (cls_code a) (cls_code b).
@@ -53,6 +54,7 @@ Definition mro (c : cls) : list cls :=
   | CAC => [CObject; CA; CC; CAC]
   | CE => [CObject; CE]
   | CIE => [CObject; CInt; CIE]
+  | CEnumMeta => [CObject; CType; CEnumMeta]
   end.
 
 (* TypeObject.artificial_bases: int -> float, complex ; float -> complex *)
@@ -82,6 +84,8 @@ Definition sub_art (a b : cls) : bool := existsb (fun base => sub base b) (base_
 Definition enum_size (c : cls) : nat :=
   match c with CE => 2 | CIE => 2 | _ => 0 end.
 Definition is_enum (c : cls) : bool := negb (Nat.eqb (enum_size c) 0).
+(* type(c): the metaclass of a class object *)
+Definition meta (c : cls) : cls := if is_enum c then CEnumMeta else CType.
 
 (* ------------------------------------------------------------------ *)
 (* Boolability (names of boolability.py's enum) *)
@@ -140,7 +144,7 @@ Inductive obj :=
 Definition class_of (o : obj) : cls :=
   match o with
   | ONone => CNone | OBool _ => CBool | OInt _ => CInt | OFloat _ => CFloat
-  | OStr _ => CStr | OInst c _ => c | OEnum c _ => c | OClass _ => CType
+  | OStr _ => CStr | OInst c _ => c | OEnum c _ => c | OClass c => meta c
   | OTuple _ => CTuple
   end.
 
